@@ -934,7 +934,10 @@ class Recorder:
                     if asyncio.isfuture(result) and not result.done():
                         rec["events"].append(2)
                         # a cancelled item future is discarded by the machine's tick, not an event
-                        result.add_done_callback(lambda f, rec=rec: f.cancelled() or rec["events"].append(4))
+                        # (nor is one that ends, in whatever way, after the queue was aborted)
+                        result.add_done_callback(
+                            lambda f, rec=rec, obj=obj: f.cancelled() or getattr(obj, "_aborted", False)
+                            or rec["events"].append(4))
                     else:
                         rec["events"].append(3)
                 return await q_push(obj, result)
